@@ -359,6 +359,18 @@ pub fn c04(ctx: &mut Ctx) {
         }
     }
     ctx.rep.count("cases.family", n);
+    // long records
+    let mut sh = ctx.shard;
+    for (len, seed) in [(4097usize, 1u64), (8193, 2), (20_000, 3), (70_000, 4)] {
+        let s = crate::iters::long_input(len, seed);
+        for k in 1..=8usize {
+            if sh.mine() {
+                c04_one(ctx, &sets[k - 1], "long-record", &s, true);
+                ctx.rep.nontrivial += 1;
+                ctx.rep.count("cases.long_records", 1);
+            }
+        }
+    }
     // file API: all S5 strings of length <= 6 as one file per (k, mode); one (k, mode) pair per shard slot
     // three orders of the same records: shortest first, longest first, and a stride permutation that interleaves
     // short and long records (a routine that carries state from one record to the next must not get away with it)
@@ -817,6 +829,24 @@ pub fn c12(ctx: &mut Ctx) {
                         }
                     }
                 }
+            }
+        }
+    }
+    // long records
+    for (len, seed) in [(4097usize, 1u64), (20_000, 3), (70_000, 4)] {
+        let s = crate::iters::long_input(len, seed);
+        for k in [1usize, 3, 5, 7] {
+            for norm in [true, false] {
+                if !sh.mine() {
+                    continue;
+                }
+                let mut comp = OligoCgrComputer::new("-".into(), "-".into(), k, 16);
+                comp.set_norm(norm);
+                let mut oligo = OligoComputer::new("-".into(), "-".into(), k);
+                oligo.set_norm(norm);
+                c12_one(ctx, k, 16, norm, &comp, &oligo, &model::canon_index(k), &s);
+                n += 1;
+                ctx.rep.nontrivial += 1;
             }
         }
     }
